@@ -367,6 +367,16 @@ pub fn wrap_optimal_fit<'a, 'b, T: Fragment>(
         cost
     });
 
+    #[cfg(fuzzing)]
+    crate::verif_hooks::minima_log_push(|| crate::verif_hooks::MinimaRecord {
+        fragments: fragments
+            .iter()
+            .map(|f| (f.width(), f.whitespace_width(), f.penalty_width()))
+            .collect(),
+        line_widths: line_widths.to_vec(),
+        minima: minima.clone(),
+    });
+
     for (_, cost) in &minima {
         if cost.is_infinite() {
             return Err(OverflowError);
